@@ -34,6 +34,35 @@ def mk(op, payload, *args, group="", meta=None):
     return Case(C.req(op, payload, *args), group, meta)
 
 
+def rust_concat_literals(src):
+    """the string built by each `concat!("…", "…")` of a Rust source (linear scan, no regex backtracking)"""
+    esc = {"n": "\n", "r": "\r", "t": "\t", '"': '"', "\\": "\\", "0": "\0"}
+    res, i = [], 0
+    while True:
+        i = src.find("concat!(", i)
+        if i < 0:
+            return res
+        i += len("concat!(")
+        parts, depth = [], 1
+        while i < len(src) and depth > 0:
+            ch = src[i]
+            if ch == '"':
+                j, buf = i + 1, []
+                while j < len(src) and src[j] != '"':
+                    if src[j] == "\\" and j + 1 < len(src):
+                        buf.append(esc.get(src[j + 1], src[j + 1]))
+                        j += 2
+                    else:
+                        buf.append(src[j]); j += 1
+                parts.append("".join(buf))
+                i = j + 1
+            else:
+                depth += ch == "("
+                depth -= ch == ")"
+                i += 1
+        res.append("".join(parts))
+
+
 def corpus_texts():
     """the repository's own fixtures (tests/, README examples are in doc tests) + /verif/corpus"""
     out = []
@@ -47,11 +76,9 @@ def corpus_texts():
         for f in sorted(files):
             if f.endswith(".rs"):
                 src = open(os.path.join(d, f), encoding="utf-8").read()
-                for m in re.finditer(r"concat!\(((?:\s*\"(?:[^\"\\]|\\.)*\",?\s*)+)\)", src):
-                    parts = re.findall(r"\"((?:[^\"\\]|\\.)*)\"", m.group(1))
-                    s = "".join(parts).encode().decode("unicode_escape", errors="replace")
-                    if "#EXTM3U" in s:
-                        out.append(s)
+                for lit in rust_concat_literals(src):
+                    if "#EXTM3U" in lit:
+                        out.append(lit)
     cdir = os.path.join(C.VERIF, "corpus")
     for f in sorted(os.listdir(cdir)) if os.path.isdir(cdir) else []:
         if f.endswith(".m3u8"):
@@ -398,4 +425,219 @@ PROPS["C19"] = {
     "exhaustive": False,
     "explanation": "theorems: kfv_laws, f32_laws (hand-written impls), decryptionKey_cmp_eq_iff / extXKey_cmp_eq_iff (derived order the key set relies on) on the model; the model's ==/cmp/hash outcomes are compared with the implementation's on every pair (gate), and the six laws are evaluated on the implementation's own answers for all types including the derived ones",
     "assumptions": ["derived PartialEq/Ord/Hash are structural/lexicographic/field-wise (rustc)", "hash equality is observed through DefaultHasher (SipHash) - collisions of unequal inputs are ignored", "+0 == -0 for Float is IEEE equality by design; content is compared up to that identification"],
+}
+
+
+# ------------------------------------------------------------------------------------------
+# C13
+
+MT = ["AUDIO", "VIDEO", "SUBTITLES", "CLOSED-CAPTIONS"]
+
+
+def c13_render(rng, cfg):
+    lines = []
+    for (t, g) in cfg["media"]:
+        l = '#EXT-X-MEDIA:TYPE=%s,GROUP-ID="%s",NAME="n%d"' % (t, g, len(lines))
+        if t == "SUBTITLES":
+            l += ',URI="s.m3u8"'
+        if t == "CLOSED-CAPTIONS":
+            l += ',INSTREAM-ID="CC1"'
+        lines.append([l])
+    for i, v in enumerate(cfg["variants"]):
+        if v.get("iframe"):
+            l = '#EXT-X-I-FRAME-STREAM-INF:BANDWIDTH=1,URI="i%d"' % i
+            if v.get("video"):
+                l += ',VIDEO="%s"' % v["video"]
+            lines.append([l])
+        else:
+            l = "#EXT-X-STREAM-INF:BANDWIDTH=%d" % (i + 1)
+            for k, a in (("audio", "AUDIO"), ("video", "VIDEO"), ("subs", "SUBTITLES")):
+                if v.get(k):
+                    l += ',%s="%s"' % (a, v[k])
+            if v.get("cc") == "NONE":
+                l += ",CLOSED-CAPTIONS=NONE"
+            elif v.get("cc"):
+                l += ',CLOSED-CAPTIONS="%s"' % v["cc"]
+            lines.append([l, "v%d.m3u8" % i])
+    for (did, lang) in cfg.get("sd", []):
+        l = '#EXT-X-SESSION-DATA:DATA-ID="%s",VALUE="v"' % did
+        if lang:
+            l += ',LANGUAGE="%s"' % lang
+        lines.append([l])
+    order = cfg.get("order")
+    if order == "shuffle":
+        rng.shuffle(lines)
+    elif order == "reverse":
+        lines.reverse()
+    return "#EXTM3U\n" + "\n".join(x for it in lines for x in it) + "\n"
+
+
+def c13_expect(cfg):
+    """the property's rule, written from its text (independent of model and implementation)"""
+    defined = set(cfg["media"])
+    has_none = has_group = False
+    for v in cfg["variants"]:
+        if v.get("iframe"):
+            if v.get("video") and ("VIDEO", v["video"]) not in defined:
+                return False
+            continue
+        for k, t in (("audio", "AUDIO"), ("video", "VIDEO"), ("subs", "SUBTITLES")):
+            if v.get(k) and (t, v[k]) not in defined:
+                return False
+        cc = v.get("cc")
+        if cc == "NONE":
+            has_none = True
+        elif cc:
+            has_group = True
+            name = cc[1] if isinstance(cc, tuple) else cc
+            if ("CLOSED-CAPTIONS", name) not in defined:
+                return False
+    if has_none and has_group:
+        return False
+    sd = cfg.get("sd", [])
+    return len(set(sd)) == len(sd)
+
+
+OBS_MT = {"audio": "AUDIO", "video": "VIDEO", "subs": "SUBTITLES", "cc": "CLOSED-CAPTIONS"}
+
+
+def split_top(s, sep=","):
+    out, depth, cur = [], 0, ""
+    for ch in s:
+        if ch in "{[":
+            depth += 1
+        elif ch in "}]":
+            depth -= 1
+        if ch == sep and depth == 0:
+            out.append(cur); cur = ""
+        else:
+            cur += ch
+    if cur or out:
+        out.append(cur)
+    return out
+
+
+def parse_master_obs(obs):
+    """P{indep;start;[xmedia];[variant];[sd];[keys];[unknown]} -> (media list, variants list)"""
+    inner = obs[2:-1]
+    f = split_top(inner, ";")
+    media = []
+    for m in split_top(f[2][1:-1]):
+        if not m:
+            continue
+        mf = split_top(m[1:-1], ";")
+        media.append((OBS_MT[mf[0]], C.unhx(mf[2][1:])))
+    variants = []
+    for v in split_top(f[3][1:-1]):
+        if not v:
+            continue
+        vf = split_top(v[2:-1], ";")
+        un = lambda x: None if x == "-" else C.unhx(x[1:])
+        if v[0] == "I":
+            sd = split_top(vf[1][1:-1], ";")
+            variants.append({"iframe": True, "video": un(sd[5])})
+        else:
+            sd = split_top(vf[5][1:-1], ";")
+            cc = vf[4]
+            ccv = None if cc == "-" else ("NONE" if cc == "ccN" else ("G", C.unhx(cc[4:])))
+            variants.append({"audio": un(vf[2]), "subs": un(vf[3]), "cc": ccv, "video": un(sd[5])})
+    return media, variants
+
+
+def expected_assoc(media, v):
+    out = []
+    for i, (t, g) in enumerate(media):
+        if v.get("iframe"):
+            hit = t == "VIDEO" and v.get("video") == g
+        else:
+            hit = ((t == "AUDIO" and v.get("audio") == g) or (t == "VIDEO" and v.get("video") == g)
+                   or (t == "SUBTITLES" and v.get("subs") == g)
+                   or (t == "CLOSED-CAPTIONS" and isinstance(v.get("cc"), tuple) and v["cc"][1] == g))
+        if hit:
+            out.append(i)
+    return out
+
+
+def c13_build(ctx):
+    rng = ctx.rng
+    cases = []
+    for t in corpus_texts():
+        if "#EXT-X-STREAM-INF" in t or "#EXT-X-MEDIA:" in t:
+            cases.append(mk("master", t, group="corpus"))
+    base = [("AUDIO", "g1"), ("VIDEO", "g1"), ("SUBTITLES", "g1"), ("CLOSED-CAPTIONS", "g1")]
+    # exhaustive reduced scope
+    for mask in range(16):
+        media = [base[i] for i in range(4) if mask >> i & 1]
+        for a1, v1, s1, c1 in itertools.product([None, "g1"], [None, "g1"], [None, "g1"], [None, "g1", "NONE"]):
+            for c2, a2 in itertools.product([None, "g1", "g2", "NONE"], [None, "g2"]):
+                for iv in (None, "g1"):
+                    for order in (None, "reverse"):
+                        cfg = {"media": media, "variants": [{"audio": a1, "video": v1, "subs": s1, "cc": c1},
+                                                            {"audio": a2, "cc": c2}, {"iframe": True, "video": iv}], "order": order}
+                        cases.append(mk("master", c13_render(rng, cfg), group="exhaustive-small", meta={"cfg": cfg}))
+    # session data: all triples over 2 ids x 3 languages
+    sdv = [(i, l) for i in ("a", "b") for l in (None, "en", "es")]
+    for trip in itertools.product(sdv, repeat=3):
+        cfg = {"media": [], "variants": [], "sd": list(trip)}
+        cases.append(mk("master", c13_render(rng, cfg), group="session-data", meta={"cfg": cfg}))
+    # random full scope: 4 types x 2 ids (+ a group literally called NONE), up to 2 variants + i-frame, shuffled tags
+    ids = ["g1", "g2"]
+    for _ in range(ctx.n(6000, 150000)):
+        allr = [(t, g) for t in MT for g in ids]
+        media = [r for r in allr if rng.random() < 0.5]
+        if rng.random() < 0.05:
+            media.append(("CLOSED-CAPTIONS", "NONE"))
+        vs = []
+        for _ in range(rng.randint(0, 2)):
+            pick = lambda extra=(): rng.choice([None, None, "g1", "g2"] + list(extra))
+            vs.append({"audio": pick(), "video": pick(), "subs": pick(), "cc": pick(("NONE", "NONE"))})
+        if rng.random() < 0.5:
+            vs.append({"iframe": True, "video": rng.choice([None, "g1", "g2"])})
+        sd = [(rng.choice("ab"), rng.choice([None, "en"])) for _ in range(rng.randint(0, 2))]
+        cfg = {"media": media, "variants": vs, "sd": sd, "order": "shuffle"}
+        cases.append(mk("master", c13_render(rng, cfg), group="random-full", meta={"cfg": cfg}))
+    # larger generated masters, consistent and not
+    for i in range(ctx.n(600, 6000)):
+        cases.append(mk("master", G.gen_master(rng, features=ctx.features, consistent=(i % 2 == 0))[0], group="generated"))
+    return cases
+
+
+def c13_oracle(ctx, cases, impl, model):
+    fails = []
+    for c, a in zip(cases, impl):
+        r = C.Resp(a)
+        if r.status == "panic":
+            fails.append(dict(describe(c.line, a), what="master parser panicked"))
+            continue
+        cfg = c.meta.get("cfg")
+        if cfg is not None:
+            exp = c13_expect(cfg)
+            if exp != (r.status == "ok"):
+                fails.append(dict(describe(c.line, a), what="acceptance differs from the consistency rule: expected %s, implementation %s" % ("accept" if exp else "reject", r.status), law="accept-iff-consistent"))
+                continue
+        if r.status == "ok":
+            media, variants = parse_master_obs(r.obs)
+            # every value handed out is consistent
+            cfg2 = {"media": media, "variants": variants}
+            if not c13_expect(cfg2):
+                fails.append(dict(describe(c.line, a), what="an accepted master playlist violates the reference constraints", law="ok-implies-consistent"))
+            exp_a = "[" + ",".join("[" + ",".join(str(i) for i in expected_assoc(media, v)) + "]" for v in variants) + "]"
+            if r.get("A") != exp_a:
+                fails.append(dict(describe(c.line, a), what="rendition lookup returns %s, the references are %s" % (r.get("A"), exp_a), law="lookup",
+                                  cc_none_vs_group_named_none=any(v.get("cc") == "NONE" for v in variants) and ("CLOSED-CAPTIONS", "NONE") in media))
+    return fails
+
+
+@classifier("K5-cc-none-matches-group-named-NONE")
+def _k5(f):
+    return f.get("law") == "lookup" and f.get("cc_none_vs_group_named_none") is True
+
+
+PROPS["C13"] = {
+    "build": c13_build, "gate": {"status", "obs", "A"}, "oracle": c13_oracle,
+    "nontrivial": lambda c, a: bool(c.meta.get("cfg") and (c.meta["cfg"]["variants"] or c.meta["cfg"].get("sd"))) or (c.group in ("generated", "corpus") and a.startswith("ok")),
+    "rule": "exhaustive reduced scope (every subset of 4 renditions x every {absent,g1[,NONE]} assignment of variant 1, {absent,g1,g2,NONE}x{absent,g2} of variant 2, i-frame video {absent,g1}, both tag orders), all triples of session data over 2 ids x 3 languages, random configurations over the full scope of the property (4 types x 2 ids, <= 2 variants + i-frame, shuffled tags, a group literally named NONE), generated larger masters (consistent and inconsistent); non-trivial = configuration with at least one variant or session-data tag (distinct texts)",
+    "exhaustive": False,
+    "explanation": "theorems: validateVariants_iff, validateSessionData_iff, build_ok_iff, parseMaster_consistent, assembleMaster_ok_iff, associatedWith_iff, isAssociated_iff_partial (+ isAssociated_counterexample for K5); oracle: acceptance of every rendered configuration is compared with an independent Python statement of the rule, every accepted value is re-checked for consistency and its rendition lookup compared with the references",
+    "assumptions": ["the builder path of the same rule (MasterPlaylistBuilder::build) is covered by the model theorem build_ok_iff; its implementation side is exercised by C20's builder scripts"],
 }
